@@ -29,7 +29,7 @@ func registerC09() {
 		ID:    "C09",
 		Level: "exploration",
 		Rule: "harness and library are built with -race; each run starts G in {2,4,16,64} goroutines, every goroutine owning private copies of its inputs and private Files and " +
-			"executing a PRNG sequence of Decode (with and without options and a formatting logger, on intact and on corrupted private copies) / DecodeChained / CheckIntegrity / DecodeHeader / DecodeHeaderAndFileID / Header.MarshalJSON / Encode of decoded Files / NewHeader+NewFile+constructors+Encode+Decode of API-built Files / Encode of Files larger than 4 MiB (all goroutines at once, in runs of a second build without race detector) / 96 and 200 goroutines that are all inside one reading entry point at the same moment (readers that wait, inside the first Read, for the others; same build) / String methods through readers and " +
+			"executing a PRNG sequence of Decode (with and without options and a formatting logger, on intact and on corrupted private copies) / DecodeChained / CheckIntegrity / DecodeHeader / DecodeHeaderAndFileID / Header.MarshalJSON / Encode of decoded Files / NewHeader+NewFile+constructors+Encode+Decode of API-built Files / Encode of Files larger than 4 MiB (all goroutines at once, in runs of a second build without race detector) / 96 and 200 goroutines that are all inside one reading entry point at the same moment (readers that wait, inside the first Read, for the others; same build, and one race-detector run in eight with 80) / pairs of calls of which one is parked inside a Read of its own reader - first byte, header, middle, CRC bytes - until the other, independent one has returned (it must return; it gets two minutes) / String methods through readers and " +
 			"writers that yield and deliver short reads, so that calls interleave inside the library; pool A = inputs without accumulated component sources, pool B = with. " +
 			"Oracle 1: every race-detector report (GORACE halt_on_error=0, log parsed) is classified by the innermost repository frames of its two stacks; oracle 2: every call's " +
 			"result digest equals the digest of the same call run alone (taken before the goroutines start, or - in every second run, a 'cold start' - after they have finished, so that the process's first calls into the library are concurrent). Non-trivial: a call that overlapped in time (logical clock) with a call of " +
@@ -45,15 +45,16 @@ func registerC09() {
 }
 
 type c09Result struct {
-	Calls       int64            `json:"calls"`
-	Overlapping int64            `json:"overlapping"`
-	Pairs       map[string]int64 `json:"pairs"`
-	Mismatch    []string         `json:"mismatch"`
-	Panics      []string         `json:"panics"`
-	Goroutines  int              `json:"goroutines"`
-	Pool        string           `json:"pool"`
-	Cold        bool             `json:"cold"`
-	MaxInFlight int64            `json:"max_in_flight"`
+	Calls          int64            `json:"calls"`
+	Overlapping    int64            `json:"overlapping"`
+	Pairs          map[string]int64 `json:"pairs"`
+	Mismatch       []string         `json:"mismatch"`
+	Panics         []string         `json:"panics"`
+	Goroutines     int              `json:"goroutines"`
+	Pool           string           `json:"pool"`
+	Cold           bool             `json:"cold"`
+	MaxInFlight    int64            `json:"max_in_flight"`
+	DependentPairs int64            `json:"dependent_pairs"`
 }
 
 // c09Inputs returns the two pools: A without accumulated component sources, B with.
@@ -155,28 +156,36 @@ func (w *yieldWriter) Write(p []byte) (int, error) {
 type gatedReader struct {
 	r    io.Reader
 	gate func()
+	at   int // bytes delivered before the gate is passed (0: inside the first Read)
+	n    int
 }
 
 func (g *gatedReader) Read(p []byte) (int, error) {
 	if g.gate != nil {
-		g.gate()
-		g.gate = nil
+		if g.n >= g.at {
+			g.gate()
+			g.gate = nil
+		} else if len(p) > g.at-g.n {
+			p = p[:g.at-g.n]
+		}
 	}
-	return g.r.Read(p)
+	n, err := g.r.Read(p)
+	g.n += n
+	return n, err
 }
 
 func c09Call(kind int, in []byte, rng *lib.Rand, poolB bool) string {
-	return c09CallGated(kind, in, rng, poolB, nil)
+	return c09CallGated(kind, in, rng, poolB, nil, 0)
 }
 
-func c09CallGated(kind int, in []byte, rng *lib.Rand, poolB bool, gate func()) string {
+func c09CallGated(kind int, in []byte, rng *lib.Rand, poolB bool, gate func(), gateAt int) string {
 	ch := lib.Chunker{Kind: "rand", Size: 64, R: rng, Yield: true}
 	if len(in) > 8192 {
 		ch.Size = 1500
 	}
 	var r io.Reader = lib.NewReader(in, ch)
 	if gate != nil {
-		r = &gatedReader{r, gate}
+		r = &gatedReader{r: r, gate: gate, at: gateAt}
 	}
 	var out string
 	o := lib.Guard(func() {
@@ -185,7 +194,7 @@ func c09CallGated(kind int, in []byte, rng *lib.Rand, poolB bool, gate func()) s
 			f, e := fit.Decode(r)
 			out = c09Digest(f, poolB) + lib.ErrText(e)
 		case 2:
-			fs, e := fit.DecodeChained(&gatedReader{lib.NewReader(append(append([]byte{}, in...), in...), ch), gate})
+			fs, e := fit.DecodeChained(&gatedReader{r: lib.NewReader(append(append([]byte{}, in...), in...), ch), gate: gate, at: gateAt})
 			for _, f := range fs {
 				out += c09Digest(f, poolB)
 			}
@@ -338,6 +347,63 @@ func C09Sub(args []string) int {
 		d          string
 	}
 	var observed []obsCall
+	if many {
+		// Dependent I/O: call A is parked inside a Read of its own reader (at the first byte,
+		// inside the header, in the middle, at the two CRC bytes) until call B - another entry
+		// point call on another reader - has returned. B does not depend on A in any way, so B
+		// must return while A waits; a call that holds something other calls need while it waits
+		// for its caller's I/O would keep B from returning. (B gets two minutes.)
+		pairs := 0
+		for _, ka := range []int{8, 0, 2, 3, 5, 9} {
+			for _, kb := range []int{8, 0, 3, 2} {
+				if len(res.Mismatch) > 0 {
+					break // one stalled pair is reported; the others would only add minutes
+				}
+				ia, ib := (ka+kb)%3, (ka+2*kb+1)%3
+				inA := append([]byte{}, pool[ia]...)
+				inB := append([]byte{}, pool[ib]...)
+				for _, at := range []int{0, 13, len(inA) / 2, len(inA) - 2, len(inA) - 1} {
+					parked, doneB := make(chan struct{}), make(chan struct{})
+					stalled := false
+					var dA, dB string
+					var wg sync.WaitGroup
+					wg.Add(2)
+					go func() {
+						defer wg.Done()
+						<-parked
+						dB = c09Call(kb, inB, lib.NewRand("C09.depsB", uint64(ka*100+kb)), poolB)
+						close(doneB)
+					}()
+					go func() {
+						defer wg.Done()
+						gate := func() {
+							close(parked)
+							select {
+							case <-doneB:
+							case <-time.After(2 * time.Minute):
+								stalled = true
+							}
+						}
+						dA = c09CallGated(ka, inA, lib.NewRand("C09.depsA", uint64(ka*100+kb)), poolB, gate, at)
+						select {
+						case <-parked: // the gate was passed
+						default:
+							close(parked) // A never read that far (an entry point that stops early)
+						}
+					}()
+					wg.Wait()
+					pairs++
+					if stalled {
+						res.Mismatch = append(res.Mismatch, fmt.Sprintf("%s did not return within two minutes while another call (%s) was waiting inside a Read of its own reader at offset %d of %d: one call's wait for its caller's I/O holds up an independent call", c09KindNames[kb], c09KindNames[ka], at, len(inA)))
+						break
+					}
+					observed = append(observed, obsCall{-1, pairs, ka, ia, dA}, obsCall{-2, pairs, kb, ib, dB})
+				}
+			}
+		}
+		res.Calls += int64(2 * pairs)
+		res.DependentPairs = int64(pairs)
+	}
 	var clock, goFlag int64
 	type span struct {
 		g, kind    int
@@ -376,7 +442,7 @@ func C09Sub(args []string) int {
 						}
 					}
 					t0 := atomic.AddInt64(&clock, 1)
-					d := c09CallGated(k, mine[i], rng, poolB, gate)
+					d := c09CallGated(k, mine[i], rng, poolB, gate, 0)
 					t1 := atomic.AddInt64(&clock, 1)
 					spans[gi] = append(spans[gi], span{gi, k, t0, t1})
 					mu.Lock()
@@ -513,7 +579,7 @@ func c09Main(c *lib.Ctx) {
 	os.MkdirAll(wd, 0o755)
 	gs := []int{2, 4, 16, 64}
 	sigs := map[string]int64{}
-	var totalOverlap, totalCalls, maxInFlight int64
+	var totalOverlap, totalCalls, maxInFlight, depPairs int64
 	pairs := map[string]int64{}
 	var rmu sync.Mutex
 	var rwg sync.WaitGroup
@@ -580,6 +646,7 @@ func c09Main(c *lib.Ctx) {
 			if res.MaxInFlight > maxInFlight {
 				maxInFlight = res.MaxInFlight
 			}
+			depPairs += res.DependentPairs
 			for _, m := range res.Mismatch {
 				c.Violation([]byte(fmt.Sprintf("run %d G=%d pool %s seed %d", r, g, pool, lib.Seed())), "run %d (G=%d, pool %s): %s %v", r, g, pool, m, res.Panics)
 				break
@@ -619,6 +686,7 @@ func c09Main(c *lib.Ctx) {
 	c.NontrivialN(totalOverlap)
 	c.Count("calls", totalCalls)
 	c.Count("most_calls_of_one_entry_point_in_flight_at_once", maxInFlight)
+	c.Count("call_pairs_where_one_waits_in_its_reader_until_the_other_returned", depPairs)
 	c.Count("calls_overlapping_another_goroutine", totalOverlap)
 	c.Count("distinct_overlapping_call_kind_pairs", int64(len(pairs)))
 	c.Count("race_report_signatures", int64(len(sigs)))
